@@ -95,9 +95,12 @@ func (s *c06SpaceT) describe() string {
 		"(d) pumped inputs u v^%d x for every split w=u.v.x (v non-empty) of every byte string w of length <=%d, and for every token v (followed by nothing, a space or a newline) after each of %d opening contexts u (quick: the first 10; closers x: %v) (minimal set); balanced nests o^k core c^k for %d opener/closer pairs, k in {2,8,%d} (full set). "+
 		"Full configuration set = 5 variants x KeepComments{off,on} x StopAt{none,\"$$\"} x RecoverErrors{0,1,3} x {Parse, StmtsSeq, WordsSeq, InteractiveSeq, Document, Arithmetic} = 360; reduced = 5 variants x 6 entry points x 4 option triples = 120; minimal = x 2 option triples = 60 (every option value with every variant and entry point); an iterator entry point that yields anything is run again with a consumer that stops after the first item. "+
 		"Oracle per (input, configuration): the call returns without panic and within the hang limit; every non-nil tree it returns or yields with a nil error (including trees with recovered positions) goes through Walk (Pos/End of every node), Print under %d printer configurations (default; all layout options on with KeepPadding; Minify; SingleLine), typedjson.Encode and Simplify without panic; within one input, trees with equal (node types, positions, literal values, default printed text) are consumed once. "+
-		"(e) cost growth: for every split of every byte string of length <=%d and the token families of (d), under 5 variants x 6 entry points, the parse cost of u v^k x (heap objects, heap bytes, thread CPU time if >= 2 ms) at k=1024 must be below 8x the cost at k=256 (linear: 4x, quadratic: 16x); thorough also every closer as suffix of the token families, and k=4096 vs 1024 for the byte-string families and the token families without closer. distinct = distinct (entry point, items, node count, error message) outcomes",
+		"(e) cost growth: for every split of every byte string of length <=%d and the token families of (d), under 5 variants x 6 entry points, the parse cost of u v^k x (heap objects, heap bytes, thread CPU time if >= 2 ms) at k=1024 must be below 8x the cost at k=256 (linear: 4x, quadratic: 16x); thorough also every closer as suffix of the token families, and k=4096 vs 1024 for the byte-string families and the token families without closer. (d2/e2) both the crash oracle (64-fold) and the cost oracle also get the multi-token families of c06_cost2.go: units pre+t1+j+t2+term for token pairs (t1,t2) (quick: t1 or t2 in %q; thorough: also every ordered pair, pre \"\"), j in {\"\",\" \"}, (term,pre) in {(\" \",\"\"),(\"; \",\"\"),(\"; \",\"a \"),(\"\\n\",\"\")}, each unit with operand t2 also in the two-part form unit^k LF (t2 LF)^k (k here-documents opened on one line, then their k bodies); cost only: the %d balanced nests o^k core c^k with core in {a, empty}, k=256 vs 1024. "+
+		"(f) parser reuse: the main enumeration keeps one Parser per worker and option set together with the calls made on it for the last %d inputs; a failure that does not repeat on a new Parser is re-run as that call sequence on ONE new Parser, reduced to a pair (earlier call, failing call) when possible, and reported/replayed as such (kind reuse). Dedicated family: candidate = prefix + construct + tail, prefixes %q (thorough: %q), constructs %q (thorough: also every token), tails %q; for each of 60 option sets (5 variants x KeepComments x StopAt x RecoverErrors{0,1,3}) and 9 ways to run the candidate (6 entry points, iterators also stopping after the first item): one new Parser on which candidate and probe alternate over %d probes (3 inputs x 6 entry points), every call judged like any other. "+
+		"distinct = distinct (entry point, items, node count, error message) outcomes",
 		len(c06Bytes), c06Bytes, s.Bytes[2], s.Bytes[1], s.Bytes[0], len(c06BytesLong), c06BytesLong, len(c06Tokens), c06Tokens, s.Tokens[2], s.Tokens[1], s.Tokens[0],
-		len(synt.SyntaxCorpus()), s.CorpusSet, s.MutDelMaxLen, s.MutMaxLen, len(s.MutAlphabet), s.PumpK, s.PumpLen, len(c06PumpCtx), s.Closers, len(c06Nests), s.PumpK, len(c06PrintCfgs), s.CostLen)
+		len(synt.SyntaxCorpus()), s.CorpusSet, s.MutDelMaxLen, s.MutMaxLen, len(s.MutAlphabet), s.PumpK, s.PumpLen, len(c06PumpCtx), s.Closers, len(c06Nests), s.PumpK, len(c06PrintCfgs), s.CostLen,
+		c06UnitOperands, len(c06Nests), c06HistInputs, c06ReusePrefixesQuick, c06ReusePrefixes, c06ReuseOpeners, c06ReuseTails, len(c06ReuseProbes))
 }
 
 // c06Openers/closers are the tokens used as context of token-level pumps.
@@ -182,6 +185,13 @@ func (s *c06SpaceT) gen(emit func(c06Case)) {
 	// The longest byte strings and token sequences are by far the largest
 	// sets; they go last so that a time budget cut leaves the other sets whole.
 	last := false
+	// (f) parser-reuse family: small, goes first
+	if kinds == "" || strings.Contains(kinds, "reusefam") {
+		c06ReuseInputs(s.Closers, func(src []byte) {
+			s.counts["reusefam"]++
+			emit(c06Case{Kind: "reusefam", Src: src, Text: fmt.Sprintf("%q", src)})
+		})
+	}
 	// (a)
 	enum.Seqs(c06Bytes, s.Bytes[0], func(w []string) {
 		if (len(w) == s.Bytes[0]) != last {
@@ -251,6 +261,11 @@ func (s *c06SpaceT) gen(emit func(c06Case)) {
 	// (d)
 	c06PumpFamilies(s.PumpLen, s.Closers, func(_ int, u, v, x []byte) {
 		put("pump", c06Pump(u, v, x, s.PumpK), 0)
+	})
+	c06UnitFamilies(s.Closers, func(fm c06Fam) {
+		if len(fm.M) == 0 && len(fm.W) == 0 || string(fm.M) == "\n" { // the nests are below
+			put("pump", fm.pump(nil, s.PumpK), 0)
+		}
 	})
 	for _, n := range c06Nests {
 		for _, core := range []string{"a", "", "1", "\"a\""} {
